@@ -139,7 +139,16 @@ func TransformModuleFilesToModel( //nolint:funlen,gocognit,cyclop
 			rawTypeDefs = append(rawTypeDefs, typeDef)
 		}
 
-		for name, condition := range mdl.GetConditions() {
+		// iterate in a fixed order so that the errors reported do not depend on map iteration
+		conditionNames := make([]string, 0, len(mdl.GetConditions()))
+		for name := range mdl.GetConditions() {
+			conditionNames = append(conditionNames, name)
+		}
+
+		slices.Sort(conditionNames)
+
+		for _, name := range conditionNames {
+			condition := mdl.GetConditions()[name]
 			if _, ok := conditions[name]; ok {
 				lineIndex := utils.GetConditionLineNumber(name, lines)
 				line, col := utils.ConstructLineAndColumnData(lines, lineIndex, name)
@@ -160,7 +169,12 @@ func TransformModuleFilesToModel( //nolint:funlen,gocognit,cyclop
 		}
 	}
 
-	for filename, typeDefs := range extendedTypeDefs {
+	// apply the extensions in the order the files were given, not in map order
+	for _, module := range modules {
+		filename := module.Name
+		typeDefs := extendedTypeDefs[filename]
+		delete(extendedTypeDefs, filename)
+
 		lines := moduleFiles[filename]
 
 		for _, typeDef := range typeDefs {
@@ -210,7 +224,15 @@ func TransformModuleFilesToModel( //nolint:funlen,gocognit,cyclop
 				existingRelationNames = append(existingRelationNames, name)
 			}
 
-			for name, relation := range typeDef.GetRelations() {
+			extendedRelationNames := make([]string, 0, len(typeDef.GetRelations()))
+			for name := range typeDef.GetRelations() {
+				extendedRelationNames = append(extendedRelationNames, name)
+			}
+
+			slices.Sort(extendedRelationNames)
+
+			for _, name := range extendedRelationNames {
+				relation := typeDef.GetRelations()[name]
 				if slices.Contains(existingRelationNames, name) {
 					lineIndex := utils.GetRelationLineNumber(name, lines)
 					line, col := utils.ConstructLineAndColumnData(lines, lineIndex, name)
